@@ -628,10 +628,11 @@ impl Real {
                     "noshard".into()
                 } else {
                     let before: HashSet<u64> = self.parts[sh].get_awaiting_decision().into_iter().collect();
+                    // `>= t` units resp. `> t` units on the virtual clock, robust to a few ms of real drift
                     if w[0] == "stale" {
-                        let _ = self.parts[sh].cleanup_stale(Duration::from_millis(t * UNIT));
+                        let _ = self.parts[sh].cleanup_stale(Duration::from_millis((t * UNIT).saturating_sub(UNIT / 2)));
                     } else {
-                        let _ = self.parts[sh].recover(Duration::from_millis(t * UNIT));
+                        let _ = self.parts[sh].recover(Duration::from_millis(t * UNIT + UNIT / 2));
                     }
                     let after: HashSet<u64> = self.parts[sh].get_awaiting_decision().into_iter().collect();
                     let mut gone: Vec<u64> = before.difference(&after).map(|t| self.dense(*t)).collect();
@@ -793,20 +794,40 @@ fn run_script(m: &mut Model, rep: &mut Report, stream: &str, setup: &Setup, line
         return out;
     }
     let mut state_changes = 0;
+    // After a model-vs-implementation disagreement the rest of the script still runs on the REAL
+    // objects alone, so that the property monitors can turn the divergence into a failing input.
+    let mut model_ok = true;
     for (n, line) in lines.iter().enumerate() {
         let ia = real.exec(line);
-        let ma = m.ask(line);
-        let mut ma_cmp = ma.clone();
-        if !in_quantifier {
-            ma_cmp = ma_cmp.replace(" !outside", "");
+        for v in real.viol.drain(..) {
+            if in_quantifier {
+                out.violations.push((v.class.to_string(), v.what));
+            } else {
+                out.observations.push(format!("{}: {}", v.class, v.what));
+            }
         }
-        if ia != ma_cmp {
-            rep.disagree(stream, json!({"setup": init, "script": &lines[..=n], "at": line}), &ia, &ma);
-            out.disagreed = true;
-            return out;
-        }
-        if ma.contains("!outside") {
-            out.tags.push("outside_alphabet_event".into());
+        if model_ok {
+            let ma = m.ask(line);
+            let mut ma_cmp = ma.clone();
+            if !in_quantifier {
+                ma_cmp = ma_cmp.replace(" !outside", "");
+            }
+            if ia != ma_cmp {
+                rep.disagree(stream, json!({"setup": init, "script": &lines[..=n], "at": line}), &ia, &ma);
+                out.disagreed = true;
+                model_ok = false;
+            } else {
+                if ma.contains("!outside") {
+                    out.tags.push("outside_alphabet_event".into());
+                }
+                let id = real.dump();
+                let md = m.ask("dump");
+                if id != md {
+                    rep.disagree(stream, json!({"setup": init, "script": &lines[..=n], "at": format!("dump after `{line}`")}), &id, &md);
+                    out.disagreed = true;
+                    model_ok = false;
+                }
+            }
         }
         if !line.starts_with("preload") {
             let t = tag_of(line, &ia, &real);
@@ -815,24 +836,10 @@ fn run_script(m: &mut Model, rep: &mut Report, stream: &str, setup: &Setup, line
             }
             out.tags.push(t);
         }
-        let id = real.dump();
-        let md = m.ask("dump");
-        if id != md {
-            rep.disagree(stream, json!({"setup": init, "script": &lines[..=n], "at": format!("dump after `{line}`")}), &id, &md);
-            out.disagreed = true;
-            return out;
-        }
-        if real.coord.lock_manager().active_lock_count() != 0 {
+        if model_ok && real.coord.lock_manager().active_lock_count() != 0 {
             rep.disagree(stream, json!({"setup": init, "script": &lines[..=n]}), "coordinator-local lock table non-empty", "assumed empty (not modelled)");
             out.disagreed = true;
-            return out;
-        }
-        for v in real.viol.drain(..) {
-            if in_quantifier {
-                out.violations.push((v.class.to_string(), v.what));
-            } else {
-                out.observations.push(format!("{}: {}", v.class, v.what));
-            }
+            model_ok = false;
         }
         if !out.violations.is_empty() {
             break;
@@ -894,7 +901,8 @@ fn begin_line(shards: &[usize], ops: &[Vec<Op>], embs: &[u64]) -> String {
 /// a scratch real system, so that it can aim at fresh / delivered / dropped messages and at txs in a
 /// given phase.  Everything it learns that way is re-derived by `run_script` from the lines alone.
 fn gen_schedule(r: &mut Rng, setup: &Setup, max_events: usize, rep: &mut Report) -> Vec<String> {
-    let mut real = Real::new(setup.n, setup.t_units, setup.maxc, false, false);
+    let mut real = Real::new(setup.n, setup.t_units, setup.maxc, false, setup.age_parts);
+    let extended = setup.age_parts;
     let mut lines: Vec<String> = vec![];
     let nkeys = 2 + r.below(3);
     for sh in 0..setup.n {
@@ -939,6 +947,10 @@ fn gen_schedule(r: &mut Rng, setup: &Setup, max_events: usize, rep: &mut Report)
             choices.push(("sweep", 3));
             choices.push(("cabort", 1));
             choices.push(("ccommit", if prepared_tx.is_empty() { 1 } else { 25 }));
+            if extended {
+                choices.push(("stale", 3));
+                choices.push(("recover", 3));
+            }
         }
         let total: u64 = choices.iter().map(|c| c.1).sum();
         let mut x = r.below(total);
@@ -1007,6 +1019,15 @@ fn gen_schedule(r: &mut Rng, setup: &Setup, max_events: usize, rep: &mut Report)
                 format!("tick {d}")
             },
             "sweep" => "sweep".to_string(),
+            "stale" | "recover" => {
+                // with >= 2 prepared entries whose locks expired the outcome may depend on HashMap
+                // iteration order: only emitted when at most one entry is prepared on the shard
+                let sh = r.below(setup.n as u64) as usize;
+                if real.parts[sh].prepared_count() > 1 {
+                    continue;
+                }
+                format!("{pick} {sh} {}", r.below(3))
+            },
             "cabort" => format!("cabort {}", r.below(real.txs.len() as u64 + 1)),
             _ => {
                 if !prepared_tx.is_empty() && r.chance(9, 10) {
@@ -1124,6 +1145,21 @@ const EXPECTED: &[&str] = &[
     "net.duplicate", "net.drop", "net.reorder",
 ];
 
+/// Does the script, run on fresh REAL objects only, trip the monitor `class`?
+fn real_violates(setup: &Setup, lines: &[String], class: &str) -> bool {
+    std::panic::catch_unwind(std::panic::AssertUnwindSafe(|| {
+        let mut real = Real::new(setup.n, setup.t_units, setup.maxc, setup.wallclock, setup.age_parts);
+        for l in lines {
+            real.exec(l);
+            if real.viol.iter().any(|v| v.class == class) {
+                return true;
+            }
+        }
+        false
+    }))
+    .unwrap_or(false)
+}
+
 fn record(rep: &mut Report, stream: &str, setup: &Setup, lines: &[String], o: &Outcome) {
     let key = lines.join(";");
     rep.case(stream, if o.nontrivial { Some(&key) } else { None });
@@ -1132,7 +1168,18 @@ fn record(rep: &mut Report, stream: &str, setup: &Setup, lines: &[String], o: &O
     }
     rep.hit_n("events", lines.len() as u64);
     for (class, what) in &o.violations {
-        rep.violation(class, what, json!({"setup": setup.init_line(), "script": lines}));
+        // shrink the event sequence (ddmin on the real objects alone) once per class
+        let already = rep.violations.iter().any(|v| v["class"] == class.as_str());
+        let script: Vec<String> = if already || setup.wallclock {
+            lines.to_vec()
+        } else {
+            let prev = std::panic::take_hook();
+            std::panic::set_hook(Box::new(|_| {}));
+            let v = shrink_list(lines, &mut |cand: &[String]| real_violates(setup, cand, class));
+            std::panic::set_hook(prev);
+            v
+        };
+        rep.violation(class, what, json!({"setup": setup.init_line(), "script": script, "unshrunk_len": lines.len()}));
     }
 }
 
@@ -1267,6 +1314,27 @@ fn main() {
 
     // ---- reasons distribution
     // (reasons are part of every dump comparison; tally them from the tags of the last runs)
+
+    // ---- random schedules over the EXTENDED alphabet (lock expiry on every tick, cleanup_stale, recover):
+    //      correspondence only; monitor hits are counted as observations, never as violations
+    let mut r = root.fork("extended");
+    let mut ext_hits: BTreeMap<String, u64> = BTreeMap::new();
+    for _ in 0..if args.thorough { 600 } else { 60 } {
+        let setup = Setup { n: 1 + r.below(2) as usize, t_units: 2, maxc: 100, lock_to: 0, wallclock: false, age_parts: true };
+        let lines = gen_schedule(&mut r, &setup, 30, &mut rep);
+        let o = run_script(&mut m, &mut rep, "outside-quantifier", &setup, &lines, false);
+        rep.case("outside-quantifier", None);
+        for t in &o.tags {
+            if t == "stale" || t == "recover" || t == "outside_alphabet_event" {
+                rep.hit(&format!("ext.{t}"));
+            }
+        }
+        for ob in &o.observations {
+            *ext_hits.entry(ob.split(':').next().unwrap_or("").to_string()).or_insert(0) += 1;
+        }
+    }
+    rep.observe(json!({"stream": "outside-quantifier random schedules", "monitor_hits_by_class": ext_hits,
+        "note": "with lock expiry / cleanup_stale / recover in the alphabet the monitors do fire; by design these are not violations of C03"}));
 
     // ---- the two counter-traces over the extended alphabet: observations, never violations
     for (name, setup, lines) in witnesses() {
